@@ -25,6 +25,16 @@ def scenarios(ctx):
             scs.append(kplib.scenario(mode, kind, extra_opts=['-i', '1']))
             scs.append(kplib.scenario(mode, kind, extra_prog=EVIL))
             scs.append(kplib.scenario(mode, kind, pre={'rebind_argv': True, 'rebind_path': True}))
+    # the profiled function runs only in a worker thread of the program (the main thread never enters profiled code)
+    THREAD_PROG = ('import sys, threading\ntry:\n    profile\nexcept NameError:\n    def profile(f):\n        return f\n\n\n@profile\ndef work(n):\n'
+                   '    total = 0\n    for i in range(n):\n        total += i\n    return total\n\n\nprint("started", sys.argv[1:])\n'
+                   't = threading.Thread(target=work, args=(5,))\nt.start()\nt.join()\nprint("finished")\n')
+    for mode in ('l', 'lb', 'lm', 'b'):
+        s = kplib.scenario(mode, 'none', files={'prog.py': THREAD_PROG})
+        s['meta']['sequence'] = 1
+        s['meta']['worker_thread_only'] = True
+        s['runs'].append(kplib.scenario('plain', 'none')['runs'][0])       # then a cProfile-mode run in the same interpreter
+        scs.append(s)
     # the embedding application had set the importable decorator up itself before calling kernprof
     for mode in ('l', 'b', 'lm', 'plain'):
         for kind in ('none', 'error'):
